@@ -70,6 +70,16 @@ def unit_props(unit):
     return props
 
 
+def prune_build(keep=400):
+    """the result cache and assembled files are disposable: keep the newest few hundred"""
+    try:
+        fs = sorted(glob.glob(os.path.join(BUILD, 'cache_*.json')), key=os.path.getmtime)
+        for f in fs[:-keep]:
+            os.remove(f)
+    except OSError:
+        pass
+
+
 def run_unit(unit, defines=None, vacuity=False, rlimit=None, seed=None, tag='main', multiple_errors=20, only_fn=None, degrade=None, _depth=0, extra_items=None):
     """Assemble and verify one unit. Returns a result dict; never raises for proof failures."""
     os.makedirs(BUILD, exist_ok=True)
